@@ -20,7 +20,16 @@ type Footprint struct {
 
 func (f *Footprint) noteWrite(c *Cell) {
 	o := c.Obj
-	if o == nil || o.ID > f.epoch || f.owned[o] {
+	if o == nil {
+		return
+	}
+	if len(o.Site) > 7 && o.Site[:7] == "global " {
+		if _, ok := f.foreign[o]; !ok {
+			f.foreign[o] = o.Site
+		}
+		return
+	}
+	if o.ID > f.epoch || f.owned[o] {
 		return
 	}
 	if _, ok := f.foreign[o]; !ok {
